@@ -40,6 +40,12 @@ def plan(seed, overrides=None):
         twin["v"]["_rev"] = 2
         recipes[f"doc{i}t"] = twin
         recipes[f"ndoc{i}"] = G.gen_document_recipe(rr, python_form=False)
+        # documents whose root is a list (or a bare complex number)
+        root = "list"      # a bare complex number at the root is not "nested in dictionaries and lists": outside C17
+        if root == "list":
+            recipes[f"ldoc{i}"] = {"kind": "value", "v": enc([G.gen_document(rr, python_form=True) if rr.random() < 0.5 else G.cx(rr) for _ in range(rr.randint(0, 3))])}
+        else:
+            recipes[f"ldoc{i}"] = {"kind": "value", "v": enc(G.cx(rr))}
         z = G.cx(rr) * rr.choice([1, 10, 0.01])
         n = G.notation(rr, z)
         if "phase" in n and rr.random() < 0.5:
@@ -102,6 +108,9 @@ def _script(r, client, world, counter):
                 add("ld.gen_component", {"entry": P(f"entry{i}")})
                 if r.random() < 0.5:
                     add("ld.gen_component", {"entry": P(f"entry{i}")})
+        elif g == "roundtrip" and r.random() < 0.2:
+            t = add("ld.serialize", {"doc": P(f"ldoc{i}"), "fmt": fmt})
+            add("ld.deserialize", {"text": t, "fmt": fmt, "expect": P(f"ldoc{i}")})
         elif g == "roundtrip":
             t = add("ld.serialize", {"doc": P(f"doc{i}"), "fmt": "xml" if r.random() < 0.04 else fmt})
             add("ld.deserialize", {"text": t, "fmt": fmt, "expect": P(f"doc{i}")})
